@@ -557,12 +557,27 @@ impl TypeChecker {
         }
     }
 
+    /// A parameter's default value must have the parameter's type (`def f(n: int = "s")` is a type error).
+    fn check_param_default(&mut self, param: &Spanned<Param>, param_ty: &ResolvedType) {
+        if let Some(default) = &param.node.default {
+            let default_ty = self.check_expr(default);
+            if !self.types_compatible(&default_ty, param_ty) {
+                self.errors.push(errors::type_mismatch(
+                    &param_ty.to_string(),
+                    &default_ty.to_string(),
+                    default.span,
+                ));
+            }
+        }
+    }
+
     fn check_function(&mut self, func: &FunctionDecl) {
         self.symbols.enter_scope(ScopeKind::Function);
 
         // Define parameters
         for param in &func.params {
             let ty = resolve_type(&param.node.ty.node, &self.symbols);
+            self.check_param_default(param, &ty);
             self.symbols.define(Symbol {
                 name: param.node.name.clone(),
                 kind: SymbolKind::Variable(VariableInfo {
@@ -633,6 +648,7 @@ impl TypeChecker {
         // Define parameters
         for param in &method.params {
             let ty = resolve_type(&param.node.ty.node, &self.symbols);
+            self.check_param_default(param, &ty);
             self.symbols.define(Symbol {
                 name: param.node.name.clone(),
                 kind: SymbolKind::Variable(VariableInfo {
